@@ -34,7 +34,8 @@ def run(ctx):
         if kc.role == "vector":
             from ..rules_pattern import screen_of
             from ..loader import FuncInfo
-            o, raw = ctx.program.class_attr_def(kc.ci, "_match")
+            from ..roles import match_slot
+            o, raw = ctx.program.class_attr_def(kc.ci, match_slot(ctx.program))
             if isinstance(raw, FuncInfo) and not screen_of(ctx, raw):
                 r.note("information only: vector class %s has no illegal-site screen (not required by the property)" % kc.name)
     run_kernels(ctx, ["K7", "K8", "K9", "K10", "K1", "K2", "K3"], "C04")
